@@ -85,6 +85,24 @@ class Ctx:
         shutil.rmtree(self.scratch, ignore_errors=True)
 
     # ------------------------------------------------------------ srcgen
+    def ensure_generated(self):
+        """isolated mode: the Makefile's dependency scan needs EVERY generated file of _CoqProject to exist. Run each unit's
+        generator against the alternative checkout once (falls back to the main tree's copy). Caller holds the build lock."""
+        sdir = os.path.join(HARNESS, "cmd", "srcgen")
+        if ALT and not os.path.exists(os.path.join(COQ, "Generated", ".baseline")):
+            gdir = os.path.join(COQ, "Generated")
+            os.makedirs(gdir, exist_ok=True)
+            for fn in os.listdir(os.path.join(VERIF, "coq", "Generated")):
+                if fn.endswith(".v"):
+                    shutil.copyfile(os.path.join(VERIF, "coq", "Generated", fn), os.path.join(gdir, fn))
+            for gf in sorted(os.listdir(sdir)):
+                if gf.startswith("gen_") and gf.endswith(".go"):
+                    exe1 = os.path.join(BUILD, "srcgen-all-" + gf[4:-3])
+                    rc1, _, _, _ = run(["go", "build"] + MODFLAGS + ["-o", exe1, "main.go", gf], cwd=sdir, env=GOENV, timeout=600)
+                    if rc1 == 0:
+                        run([exe1, "-repo", REPO, "-out", gdir, "-summary", os.path.join(self.scratch, "srcgen-all.json")], timeout=120)
+            open(os.path.join(gdir, ".baseline"), "w").write("1")
+
     def srcgen(self, gen_names=None):
         """regenerate coq/Generated/<name>.v for the given generator names (default: every generator).
         Each property builds its own srcgen binary from main.go + its gen_*.go files, so a generator under edit for
@@ -92,21 +110,7 @@ class Ctx:
         with Lock("build"):
             os.makedirs(BUILD, exist_ok=True)
             sdir = os.path.join(HARNESS, "cmd", "srcgen")
-            if ALT and not os.path.exists(os.path.join(COQ, "Generated", ".baseline")):
-                # isolated mode: the Makefile's dependency scan needs EVERY generated file of _CoqProject to exist. Run
-                # each unit's generator against the alternative checkout once (falls back to the main tree's copy).
-                gdir = os.path.join(COQ, "Generated")
-                os.makedirs(gdir, exist_ok=True)
-                for fn in os.listdir(os.path.join(VERIF, "coq", "Generated")):
-                    if fn.endswith(".v"):
-                        shutil.copyfile(os.path.join(VERIF, "coq", "Generated", fn), os.path.join(gdir, fn))
-                for gf in sorted(os.listdir(sdir)):
-                    if gf.startswith("gen_") and gf.endswith(".go"):
-                        exe1 = os.path.join(BUILD, "srcgen-all-" + gf[4:-3])
-                        rc1, _, _, _ = run(["go", "build"] + MODFLAGS + ["-o", exe1, "main.go", gf], cwd=sdir, env=GOENV, timeout=600)
-                        if rc1 == 0:
-                            run([exe1, "-repo", REPO, "-out", gdir, "-summary", os.path.join(self.scratch, "srcgen-all.json")], timeout=120)
-                open(os.path.join(gdir, ".baseline"), "w").write("1")
+            self.ensure_generated()
             if gen_names:
                 files = ["main.go"] + ["gen_%s.go" % re.sub(r"_gen$", "", g).lower() for g in gen_names]
                 files = [f for f in files if os.path.exists(os.path.join(sdir, f))]
@@ -149,6 +153,7 @@ class Ctx:
         """Build the given .vo targets (paths relative to coq/). Returns dict target -> bool, and the log."""
         res = {}
         with Lock("build"):
+            self.ensure_generated()
             ensure_makefile()
             rc, out, err, dt = run(["make", "-j16", "-k"] + targets, cwd=COQ, timeout=timeout)
             log = out + err
